@@ -221,10 +221,10 @@ pub enum Kind {
 impl Kind {
     /// 100-arm match on byte-string literals in the real code; pure; only selects the Kind.
     /// Assumed contract (checked separately by the Kani harness c13_from_keyword_never_eof):
-    /// a keyword is never lexed as Eof.
+    /// a keyword is never lexed as Eof or as the Tombstone placeholder.
     #[verifier::external_body]
     pub fn from_keyword(word: &[u8]) -> (r: Option<Kind>)
-        ensures r != Some(Kind::Eof),
+        ensures r != Some(Kind::Eof), r != Some(Kind::Tombstone),
     { unimplemented!() }
 }
 
@@ -319,6 +319,7 @@ impl<'a> Lexer<'a> {
             final(self).pos <= final(self).input@.len(),
             old(self).pos < old(self).input@.len() ==> r.len >= 1,
             (r.kind == Kind::Eof) <==> (old(self).pos == old(self).input@.len()),
+            r.kind != Kind::Tombstone,
             (utf8_shape(old(self).input@) && boundary(old(self).input@, old(self).pos as int)) ==> boundary(old(self).input@, final(self).pos as int),
     {
         let start_pos = self.pos;
@@ -444,7 +445,7 @@ impl<'a> Lexer<'a> {
             frame(*old(self), *final(self)),
             final(self).pos >= old(self).pos,
             ascii_stop(old(self).input@, old(self).pos as int, final(self).pos as int),
-            k != Kind::Eof,
+            k != Kind::Eof && k != Kind::Tombstone,
     {
         if self.nth(0) == b'0' {
             // octal, so this is a hyphen (and an error)
@@ -469,7 +470,7 @@ impl<'a> Lexer<'a> {
             frame(*old(self), *final(self)),
             final(self).pos >= old(self).pos,
             ascii_stop(old(self).input@, old(self).pos as int, final(self).pos as int),
-            k != Kind::Eof,
+            k != Kind::Eof && k != Kind::Tombstone,
     {
         if leading_zero && self.nth(0) != b'.' {
             if [b'x', b'X'].contains(&self.nth(0)) {
@@ -608,7 +609,7 @@ impl<'a> Lexer<'a> {
             frame(*old(self), *final(self)),
             final(self).pos >= old(self).pos,
             delim_stop(old(self).input@, old(self).pos as int, final(self).pos as int),
-            k != Kind::Eof,
+            k != Kind::Eof && k != Kind::Tombstone,
     {
         let start_pos = self.pos.saturating_sub(1);
         self.eat_ident();
